@@ -14,12 +14,15 @@ def load_known():
     return json.load(open(p)).get("findings", [])
 
 
-def match_known(known, pid, harness_name, check_text):
+def match_known(known, pid, harness_name, check_text, program_text=""):
+    """An open finding is keyed by the failing call site: harness, failed check AND the enum definition it fails on
+    (`program`: regex over the rendered definition), so another violation of the same property is still reported."""
     for k in known:
         if k.get("property") != pid or k.get("status") != "open":
             continue
         m = k.get("match", {})
-        if re.search(m.get("harness", ".*"), harness_name) and re.search(m.get("check", ".*"), check_text):
+        if re.search(m.get("harness", ".*"), harness_name) and re.search(m.get("check", ".*"), check_text) \
+                and re.search(m.get("program", ".*"), program_text or "", re.S):
             return k
     return None
 
@@ -139,7 +142,7 @@ def run_check(pid, tier, seed, keep=False):
                     path = write_replay_file(run, prog, None, None, None, extra={
                         "build_violation": True, "rustc_diagnostics": [e["context"] for e in es][:5]})
                     es = sorted(es, key=lambda e: 0 if e["region"] == "api" else 1 if e["region"] == "enum" else 2)
-                    k = match_known(known, pid, "build:" + prog.name, es[0]["msg"] + " " + prog.note)
+                    k = match_known(known, pid, "build:" + prog.name, es[0]["msg"] + " " + prog.note, prog.summary or "")
                     rec = {"program": prog.name, "harness": "build", "check": es[0]["msg"], "replay": path,
                            "build_violation": True, "note": prog.note}
                     if k:
@@ -314,7 +317,7 @@ def report(run, p, h, test, replay, known):
     rec = {"program": p.name, "harness": h.name, "check": test.get("check", ""), "replay": path,
            "values": [v.hex() for v in test.get("vals", [])], "native": {k: v["outcome"] for k, v in replay.items()}}
     msgs = " ".join(v.get("message", "") for v in replay.values())
-    k = match_known(known, run.pid, h.name, (test.get("check", "") or "") + " " + msgs)
+    k = match_known(known, run.pid, h.name, (test.get("check", "") or "") + " " + msgs, p.summary or "")
     if k:
         run.known_hits.append((k, rec))
     else:
